@@ -154,8 +154,8 @@ def weirdInit : List InitTrack :=
   [{ id := 7, timeScale := 90000, kind := "H264" }, { id := 2, timeScale := 48000, kind := "MPEG1Audio" },
    { id := 3, timeScale := 44100, kind := "MPEG4Audio" }]
 def weirdParts : Parts :=
-  [[{ id := 7, baseTime := 8589934000, samples := [{ dur := 0, off := 0, payloadOK := true, pid := 1 }, { dur := 4294967295, off := -2147483648, payloadOK := true, pid := 2 }] },
-    { id := 99, baseTime := 0, samples := [{ dur := 1, off := 0, payloadOK := true, pid := 3 }] },
+  [[{ id := 7, baseTime := 8589934000, samples := [{ dur := 0, off := 0, pid := 1 }, { dur := 4294967295, off := -2147483648, pid := 2 }] },
+    { id := 99, baseTime := 0, samples := [{ dur := 1, off := 0, pid := 3 }] },
     { id := 2, baseTime := 5, samples := [] }], []]
 def weirdStream : StreamIn :=
   { first := .media (vod 1 true), reloads := [], init := some weirdInit, files := [.parts weirdParts] }
@@ -172,7 +172,7 @@ example : clientRun genFlags 0 .media [{ weirdStream with init := some dupInit }
 
 /-- without the filter that repairs F8 the same content calls a nil `decodePayload` … -/
 example : clientRun { genFlags with filtersUnsupported := false } 0 .media
-    [{ weirdStream with files := [.parts [[{ id := 2, baseTime := 5, samples := [{ dur := 1, off := 0, payloadOK := true, pid := 3 }] },
+    [{ weirdStream with files := [.parts [[{ id := 2, baseTime := 5, samples := [{ dur := 1, off := 0, pid := 3 }] },
                                          { id := 7, baseTime := 0, samples := [] }]]] }] = .panic .nilFunc := by decide
 /-- … without the guard that repairs F9 a zero time scale divides by zero … -/
 example : clientRun { genFlags with zeroTimeScale := false } 0 .media
